@@ -45,6 +45,7 @@ type PStep struct {
 	Tree         bool   `json:"tree"`
 	Pretty       bool   `json:"pretty,omitempty"`
 	Reinit       bool   `json:"reinit,omitempty"`
+	Reparse      int    `json:"reparse,omitempty"`
 	GC           bool   `json:"gc,omitempty"`
 	AbortPred    int    `json:"abort_pred,omitempty"`
 	AbortAct     int    `json:"abort_act,omitempty"`
@@ -60,28 +61,34 @@ type PProg struct {
 }
 
 type PCase struct {
-	Mode         string             `json:"mode"`
-	Run          int                `json:"run"`
-	Grammar      string             `json:"grammar,omitempty"`
-	Input        string             `json:"input,omitempty"`
-	Entry        int                `json:"entry,omitempty"`
-	Cfg          simrt.InstCfg      `json:"cfg"`
-	FaultTape    []uint32           `json:"fault_tape,omitempty"`
-	FaultCfg     simrt.MemoFaultCfg `json:"fault_cfg"`
-	History      []string           `json:"history,omitempty"`
-	Marathon     json.RawMessage    `json:"c06_marathon,omitempty"`
-	Sweep        json.RawMessage    `json:"sweep,omitempty"`
-	Prog         *PProg             `json:"prog,omitempty"`
-	Clients      []PProg            `json:"clients,omitempty"`
-	SchedTape    []uint32           `json:"sched_tape,omitempty"`
-	ActiveNum    int                `json:"active_num,omitempty"`
-	ActiveDen    int                `json:"active_den,omitempty"`
-	SiteSeed     uint64             `json:"site_seed,omitempty"`
-	Budget       uint32             `json:"budget,omitempty"`
-	Race         bool               `json:"race,omitempty"`
-	Cold         bool               `json:"cold,omitempty"`
-	FreezeClient int                `json:"freeze_client,omitempty"`
-	FreezeAt     int                `json:"freeze_at,omitempty"`
+	Mode          string             `json:"mode"`
+	Run           int                `json:"run"`
+	Grammar       string             `json:"grammar,omitempty"`
+	Input         string             `json:"input,omitempty"`
+	Entry         int                `json:"entry,omitempty"`
+	Cfg           simrt.InstCfg      `json:"cfg"`
+	FaultTape     []uint32           `json:"fault_tape,omitempty"`
+	FaultCfg      simrt.MemoFaultCfg `json:"fault_cfg"`
+	History       []string           `json:"history,omitempty"`
+	Marathon      json.RawMessage    `json:"c06_marathon,omitempty"`
+	Sweep         json.RawMessage    `json:"sweep,omitempty"`
+	Giant         bool               `json:"giant,omitempty"`
+	Reparse       int                `json:"reparse,omitempty"`
+	Prog          *PProg             `json:"prog,omitempty"`
+	Clients       []PProg            `json:"clients,omitempty"`
+	SchedTape     []uint32           `json:"sched_tape,omitempty"`
+	ActiveNum     int                `json:"active_num,omitempty"`
+	ActiveDen     int                `json:"active_den,omitempty"`
+	SiteSeed      uint64             `json:"site_seed,omitempty"`
+	Budget        uint32             `json:"budget,omitempty"`
+	Race          bool               `json:"race,omitempty"`
+	Cold          bool               `json:"cold,omitempty"`
+	FreezeClient  int                `json:"freeze_client,omitempty"`
+	FreezeAt      int                `json:"freeze_at,omitempty"`
+	FreezeSync    bool               `json:"freeze_sync,omitempty"`
+	HandoffWaiter int                `json:"handoff_waiter,omitempty"`
+	HandoffHolder int                `json:"handoff_holder,omitempty"`
+	HandoffAfter  int                `json:"handoff_after,omitempty"`
 }
 
 type PJob struct {
@@ -307,6 +314,9 @@ func (i *zzInst[U]) Parse(rule int) (bool, zzrt.Tok, string) {
 func zzErrText(err error) (s string) {
 	defer func() {
 		if r := recover(); r != nil {
+			if _, budget := r.(zzrt.ErrBudget); budget {
+				panic(r) // the harness's own step budget, not the parser's doing
+			}
 			s = fmt.Sprint("panic in Error(): ", r)
 		}
 	}()
